@@ -120,6 +120,7 @@ type Goal struct {
 	solver string
 	ms     int64
 	model  string
+	script string
 }
 
 type State struct {
@@ -140,7 +141,29 @@ type State struct {
 	oldHeap  map[string]Term // heap at function entry
 	oldGhost map[string]Term
 	oldAlloc Term
-	labels   map[string]map[string]Term // named heap snapshots (loop entry)
+	labels   map[string]*snapshot // named snapshots (after contract calls)
+}
+
+type snapshot struct {
+	heap  map[string]Term
+	ghost map[string]Term
+	alloc Term
+}
+
+func (s *State) setLabel(name string) {
+	sn := &snapshot{heap: map[string]Term{}, ghost: map[string]Term{}, alloc: s.alloc}
+	for k, v := range s.heap {
+		sn.heap[k] = v
+	}
+	for k, v := range s.ghost {
+		sn.ghost[k] = v
+	}
+	nl := make(map[string]*snapshot, len(s.labels)+1)
+	for k, v := range s.labels {
+		nl[k] = v
+	}
+	nl[name] = sn
+	s.labels = nl
 }
 
 func (s *State) fork() *State {
@@ -276,6 +299,7 @@ func (s *State) goal(name, kind string, props []string, t Term, where, info stri
 	}
 	if t.S == "true" {
 		s.x.trivial[name]++
+		s.x.trivialMeta[name] = &Goal{name: name, kind: kind, props: props, where: where, info: info}
 		return
 	}
 	s.x.counter++
